@@ -561,14 +561,21 @@ fn op_adec<T: Elem>(c: &mut Ctx, addr: usize, body: &[u8]) -> (String, bool) {
 fn op_aref<T: Elem>(c: &mut Ctx, cls: u8, code: u8, mis: usize, qlen: usize, qafter: bool, wire: u8, n: usize, payload: &[u8]) -> (String, bool) {
     let xs: Vec<T> = vec_of(payload);
     let path = path_of(qlen);
-    let b = Message::builder().id(77).query_format_code(1);
-    let m = if qafter {
-        b.body_aligned_typed_slice(&xs).query_bytes(path.clone().into_bytes()).build()
-    } else {
-        b.query_bytes(path.clone().into_bytes()).body_aligned_typed_slice(&xs).build()
+    let mk = || {
+        let b = Message::builder().id(77).query_format_code(1);
+        if qafter {
+            b.body_aligned_typed_slice(&xs).query_bytes(path.clone().into_bytes()).build()
+        } else {
+            b.query_bytes(path.clone().into_bytes()).body_aligned_typed_slice(&xs).build()
+        }
     };
+    let m = mk();
     let body = m.body.clone();
-    let frame = if wire == 1 { m.clone().into_wire_bytes() } else { m.to_vec() };
+    // (a clone would lose the headroom the builder reserved: the in-place branch needs the builder's own buffer)
+    let frame = if wire == 1 { mk().into_wire_bytes() } else { m.to_vec() };
+    if wire == 1 && frame != m.to_vec() {
+        c.fail("numeric.aref.into_wire_bytes_ne_to_vec", "into_wire_bytes on the builder's own buffer differs from to_vec".into());
+    }
     let placed = Placed::new(&frame, mis);
     let (h, seen) = ref_router::<T>(&path);
     let align = std::mem::align_of::<T>();
@@ -819,16 +826,19 @@ fn op_stream<T: Elem>(c: &mut Ctx, complex: bool, id: u64, notify: bool, ec: u32
     h.query_length = 9;
     h.body_length = 11;
     let mut streamed = Vec::new();
-    let mut b = Message::builder().id(id).notify(notify).query_format_code(qfmt).query_bytes(q.to_vec());
-    if let Ok(code) = repe::ErrorCode::try_from(ec) {
-        b = b.error_code(code);
-    }
-    let (r, built) = if complex {
+    let mkb = || {
+        let mut b = Message::builder().id(id).notify(notify).query_format_code(qfmt).query_bytes(q.to_vec());
+        if let Ok(code) = repe::ErrorCode::try_from(ec) {
+            b = b.error_code(code);
+        }
+        b
+    };
+    let (r, built, built_own) = if complex {
         let xs: Vec<Complex<T>> = cvec_of(payload);
-        (catch(|| repe::write_message_complex_slice(&mut streamed, h, q, &xs)), b.body_complex_slice(&xs).build())
+        (catch(|| repe::write_message_complex_slice(&mut streamed, h, q, &xs)), mkb().body_complex_slice(&xs).build(), mkb().body_complex_slice(&xs).build())
     } else {
         let xs: Vec<T> = vec_of(payload);
-        (catch(|| repe::write_message_typed_slice(&mut streamed, h, q, &xs)), b.body_typed_slice(&xs).build())
+        (catch(|| repe::write_message_typed_slice(&mut streamed, h, q, &xs)), mkb().body_typed_slice(&xs).build(), mkb().body_typed_slice(&xs).build())
     };
     let k = if complex { "cstream" } else { "stream" };
     match r {
@@ -841,7 +851,8 @@ fn op_stream<T: Elem>(c: &mut Ctx, complex: bool, id: u64, notify: bool, ec: u32
     let buffered = built.to_vec();
     let mut written = Vec::new();
     repe::write_message(&mut written, &built).unwrap();
-    let wire = built.clone().into_wire_bytes();
+    // the builder's own buffer (with its reserved headroom), not a clone: the in-place branch
+    let wire = built_own.into_wire_bytes();
     if streamed != buffered || written != buffered || wire != buffered {
         c.fail(&format!("numeric.{}.streaming_ne_buffered", k), format!("streamed {} bytes, buffered {} bytes; write_message equal: {}, into_wire_bytes equal: {}", streamed.len(), buffered.len(), written == buffered, wire == buffered));
     }
@@ -1053,7 +1064,7 @@ struct Net {
 /// A stand-in peer that records every request frame byte for byte and answers it: the request body
 /// comes back as the response body (an aligned request is answered with an empty array of its type).
 /// What the capture peer answers next instead of the echo (set by `capr`).
-static NEXT_RESPONSE: Mutex<Option<Vec<u8>>> = Mutex::new(None);
+static NEXT_RESPONSE: Mutex<Option<(u16, Vec<u8>)>> = Mutex::new(None);
 
 fn start_capture() -> (String, std::sync::mpsc::Receiver<Vec<u8>>) {
     use std::io::{Read, Write};
@@ -1085,12 +1096,12 @@ fn start_capture() -> (String, std::sync::mpsc::Receiver<Vec<u8>>) {
                     frame.extend_from_slice(&rest);
                     let body = &rest[q..];
                     let forced = NEXT_RESPONSE.lock().unwrap().take();
-                    let resp_body: Vec<u8> = match forced {
-                        Some(b) => b,
-                        None if body.first() == Some(&0x5C) && body.len() > 1 => vec![body[1], 0],
-                        None => body.to_vec(),
+                    let (resp_fmt, resp_body): (u16, Vec<u8>) = match forced {
+                        Some(fb) => fb,
+                        None if body.first() == Some(&0x5C) && body.len() > 1 => (1, vec![body[1], 0]),
+                        None => (1, body.to_vec()),
                     };
-                    let resp = RawFrame::request(id, false, 1, &rest[..q], 1, &resp_body).to_vec();
+                    let resp = RawFrame::request(id, false, 1, &rest[..q], resp_fmt, &resp_body).to_vec();
                     // a request for "/!noanswer" is recorded and never answered
                     let notify = hdr[11] != 0 || rest[..q].starts_with(b"/!noanswer");
                     if tx.send(frame).is_err() {
@@ -1290,7 +1301,7 @@ fn op_seq<T: Elem>(c: &mut Ctx, s1: &str, s2: &str, qafter: bool, qlen: usize, c
     let frame = both.to_vec();
     let mut written = Vec::new();
     repe::write_message(&mut written, &both).unwrap();
-    let wire = both.clone().into_wire_bytes();
+    let wire = finish(apply_setter::<T>(apply_setter::<T>(start(), s1, p1, cap), s2, p2, cap)).into_wire_bytes();
     if both.body != fresh.body || both.header.body_length != fresh.body.len() as u64 {
         let at = both.body.iter().zip(fresh.body.iter()).position(|(a, b)| a != b).unwrap_or(both.body.len().min(fresh.body.len()));
         c.fail(&format!("numeric.seq.{}_then_{}.stale_body", s1, s2), format!("after {} then {} the body has {} bytes (declared {}), a fresh builder with {} alone gives {} bytes; first difference at byte {}", s1, s2, both.body.len(), both.header.body_length, s2, fresh.body.len(), at));
@@ -1538,7 +1549,7 @@ fn op_abld<T: Elem>(c: &mut Ctx, cls: u8, code: u8, mis: usize, wire: u8, q: &[u
     if beve::aligned_typed_slice_size(&xs, 48 + q.len()) != body.len() {
         c.fail("numeric.abld.size_closed_form", "aligned_typed_slice_size differs from the bytes written".into());
     }
-    let frame = if wire == 1 { m.clone().into_wire_bytes() } else { m.to_vec() };
+    let frame = if wire == 1 { Message::builder().id(3).query_bytes(q.to_vec()).body_aligned_typed_slice(&xs).build().into_wire_bytes() } else { m.to_vec() };
     if frame != RawFrame::request(3, false, 0, q, 1, &want).to_vec() {
         c.fail("numeric.abld.frame_ne_spec", "the frame differs from header + query + spec-layout body".into());
     }
@@ -1574,13 +1585,14 @@ fn op_abld<T: Elem>(c: &mut Ctx, cls: u8, code: u8, mis: usize, wire: u8, q: &[u
 
 /// The peer answers a bulk / aligned call with a regular typed array of another (or the same) element
 /// type: the client must hand back exactly those elements, or an error — never a reinterpretation.
-fn op_capr<T: Elem>(c: &mut Ctx, client: &str, kind: &str, same: bool, resp: Vec<u8>, n2: usize, p2: &[u8]) -> (String, bool) {
+fn op_capr<T: Elem>(c: &mut Ctx, client: &str, kind: &str, same: bool, resp_fmt: u16, resp: Vec<u8>, n2: usize, p2: &[u8]) -> (String, bool) {
+    let same = same && resp_fmt == 1;
     let net = c.net.expect("net started");
     let xs: Vec<T> = vec_of(&vec![0x11u8; 2 * T::W]);
     let t = std::time::Duration::from_secs(30);
     let rx = net.captured.lock().unwrap();
     while rx.try_recv().is_ok() {}
-    *NEXT_RESPONSE.lock().unwrap() = Some(resp);
+    *NEXT_RESPONSE.lock().unwrap() = Some((resp_fmt, resp));
     let r: Result<Vec<T>, repe::RepeError> = match (client, kind) {
         ("sync", "bulk") => net.cap_sync.call_typed_slice_with_timeout("/r", &xs, t),
         ("sync", "aligned") => net.cap_sync.call_typed_slice_aligned_with_timeout("/r", &xs, t),
@@ -1599,7 +1611,7 @@ fn op_capr<T: Elem>(c: &mut Ctx, client: &str, kind: &str, same: bool, resp: Vec
         Ok(v) => {
             let p = bytes_of(v);
             if !same {
-                c.fail(&format!("numeric.capr.{}.{}.wrong_type_response_accepted", client, kind), format!("a response array of another element type ({} elements) decoded to {} elements", n2, v.len()));
+                c.fail(&format!("numeric.capr.{}.{}.wrong_type_response_accepted", client, kind), format!("a response array of another element type / under body format {} ({} elements) decoded to {} elements", resp_fmt, n2, v.len()));
             } else if v.len() != n2 || p != p2 {
                 c.fail(&format!("numeric.capr.{}.{}.elements_differ", client, kind), "the response elements differ".into());
             }
@@ -1835,7 +1847,7 @@ fn exec(out: &mut Out, line: &str, net: Option<&Net>) {
     let w = words(line);
     let idx = w.get(1).copied().unwrap_or("?");
     // panics are caught per op; only the socket ops (which can hang the process) leave a marker file
-    if matches!(w[0], "net" | "cap" | "capq" | "capr" | "capt" | "frag") {
+    if matches!(w[0], "net" | "cap" | "capq" | "capr" | "caprf" | "capt" | "frag") {
         out.begin(line);
     }
     let mut c = Ctx { out: &mut *out, line, idx, net };
@@ -1941,7 +1953,14 @@ fn exec(out: &mut Out, line: &str, net: Option<&Net>) {
             let (c2, k2) = ty(w[6], w[7]);
             let p2 = unhex(w[9]).unwrap();
             let resp = dispatch!(c2, k2, encode_as("regular", &p2));
-            dispatch!(cls, code, op_capr(&mut c, w[2], w[3], (cls, code) == (c2, k2), resp, u(w[8]), &p2))
+            dispatch!(cls, code, op_capr(&mut c, w[2], w[3], (cls, code) == (c2, k2), 1, resp, u(w[8]), &p2))
+        }
+        "caprf" => {
+            // the peer answers with an array of the right element type under another body format
+            let (cls, code) = ty(w[4], w[5]);
+            let p2 = unhex(w[8]).unwrap();
+            let resp = dispatch!(cls, code, encode_as("regular", &p2));
+            dispatch!(cls, code, op_capr(&mut c, w[2], w[3], true, u(w[6]) as u16, resp, u(w[7]), &p2))
         }
         "capt" => op_capt(&mut c, w[2]),
         "frag" => {
@@ -2677,6 +2696,13 @@ fn generate(seed: u64, thorough: bool) -> Vec<String> {
         }
     }
     // N calls in a row that time out / are answered with another element type, then ordinary calls (section 7)
+    for (i, fmt) in NOT_BEVE.iter().enumerate() {
+        let (cls, code, w) = TYPES[i % 14];
+        let n = g.r.below(4) as usize;
+        let p = gen_payload(&mut g.r, cls, code, w, n, 1);
+        push!(g, "caprf", "{} {} {} {} {} {} {}", *g.r.pick(&["sync", "syncp", "async", "asyncp"]), *g.r.pick(&["bulk", "aligned"]), cls, code, fmt, n, hex(&p));
+    }
+    push!(g, "caprf", "sync bulk 0 3 1 1 000000000000f03f");
     for (client, runlen) in [("sync", 2usize), ("async", 3)] {
         for _ in 0..(if thorough { runlen + 6 } else { runlen }) {
             push!(g, "capt", "{}", client);
